@@ -51,6 +51,20 @@ class RandomModel(object):
     def get(self, name, dflt=None):
         if name.endswith("absoluteMode") and ".E." not in name:
             name = "xyz.absoluteMode"        # X/Y/Z share the positioning mode (type invariant)
+        # make the common state/printer coupling invariant likely to hold: the ghost printer and the remembered
+        # entry position coincide with the tracked position; flags are consistent
+        alias = {"P.x": "pos.X.current", "P.y": "pos.Y.current", "P.z": "pos.Z.current", "P.e": "pos.E.current",
+                 "lastPos.X.current": "pos.X.current", "lastPos.Y.current": "pos.Y.current", "lastPos.Z.current": "pos.Z.current",
+                 "LR.extrusionAmount.isnone": "LR.firmwareRetract", "LR.feedRate.isnone": "LR.firmwareRetract"}
+        name = alias.get(name, name)
+        if name in ("excludeStartTime.isnone", "lastPosition.isnone"):
+            return False
+        if name == "exclusionEnabled" and self.cache.get("excluding"):
+            return True
+        if name == "excluding" and name not in self.cache and self.cache.get("exclusionEnabled") is False:
+            self.cache[name] = False
+        if name == "LR.extrusionAmount":
+            return abs(self.get("LR.extrusionAmount.raw")) + 0.5
         if name not in self.cache:
             if name.endswith(".isnone") or name.endswith("absoluteMode") or "Enabled" in name or name in ("excluding", "clockwise"):
                 self.cache[name] = self.rnd.random() < 0.5
@@ -80,6 +94,7 @@ class NBuilder(object):
             model = RandomModel(self.rnd)
         self.model = model
         self.choices = list(choices)
+        self.made_choices = []
         self.pkg = pkg
 
     def _num(self, name, dflt=0.0):
@@ -114,14 +129,27 @@ class NBuilder(object):
 
     def choose(self, n, label="shape"):
         if self.choices:
-            return min(self.choices.pop(0), n - 1)
-        if self.rnd is not None:
-            return self.rnd.randrange(n)
-        return 0
+            k = min(self.choices.pop(0), n - 1)
+        elif self.rnd is not None:
+            k = self.rnd.randrange(n)
+        else:
+            k = 0
+        self.made_choices.append(k)
+        return k
 
     def new(self, clsname, **fields):
         cls = find_class(self.pkg, clsname)
+        if clsname == "GcodeParser":
+            return cls()          # a real parser instance (its prior state is arbitrary for the contracts)
         o = object.__new__(cls)
+        # attributes the class defines but the contract's pre-state does not model get their constructor defaults
+        try:
+            if clsname == "ExcludeRegionState":
+                o.__dict__.update(cls(fields.get("_logger") or self.logger()).__dict__)
+            elif clsname in ("Position", "AxisPosition", "StreamProcessorComm"):
+                o.__dict__.update(cls().__dict__)
+        except Exception:  # noqa
+            pass
         for k, v in fields.items():
             setattr(o, k, v)
         return o
@@ -144,19 +172,17 @@ class NBuilder(object):
 
     def native_regions(self, name):
         v = self._struct(name)
-        if v is None:       # random probe: 0..2 random regions
-            out = []
+        if v is None:       # random probe: 0..2 random regions (recorded so that the engine self-check can rebuild them)
+            spec = []
             for i in range(self.rnd.randrange(3)):
                 if self.rnd.random() < 0.5:
-                    o = object.__new__(find_class(self.pkg, "RectangularRegion"))
                     a, b_, c, d = [self.rnd.choice([0.0, 5.0, 10.0, 20.0, 50.0]) for _ in range(4)]
-                    o.x1, o.x2, o.y1, o.y2 = min(a, b_), max(a, b_), min(c, d), max(c, d)
+                    spec.append({"rect": True, "id": {"str": "r%d" % i}, "p": [min(a, b_), min(c, d), max(a, b_), max(c, d)]})
                 else:
-                    o = object.__new__(find_class(self.pkg, "CircularRegion"))
-                    o.cx, o.cy, o.r = [self.rnd.choice([0.0, 5.0, 10.0, 20.0]) for _ in range(3)]
-                o.id = "r%d" % i
-                out.append(o)
-            return out
+                    spec.append({"rect": False, "id": {"str": "r%d" % i},
+                                 "p": [self.rnd.choice([0.0, 5.0, 10.0, 20.0]) for _ in range(3)] + [0.0]})
+            v = {"regionlist": spec}
+            self.model.cache[name] = v
         out = []
         for e in v.get("regionlist", []):
             def num(x):
@@ -198,7 +224,8 @@ class NBuilder(object):
             n = max(min_len, self.rnd.randrange(0, 6))
             if even and n % 2:
                 n += 1
-            return tuple(self.rnd.choice(RandomModel.VALUES) for _ in range(n))
+            v = {"realseq": [self.rnd.choice(RandomModel.VALUES) for _ in range(n)]}
+            self.model.cache[name] = v
         out = []
         for x in v.get("realseq", []):
             out.append(float(int(x["num"]) / int(x["den"])) if isinstance(x, dict) and "num" in x else
@@ -241,6 +268,7 @@ class NBuilder(object):
         if v is None:
             v = {"items": [{"code": ord(self.rnd.choice("XYZEFIJRSPL")), "none": self.rnd.random() < 0.15,
                             "value": self.rnd.choice(RandomModel.VALUES)} for _ in range(self.rnd.randrange(0, 6))]}
+            self.model.cache[name + ".items"] = v
         words = []
         for it in v.get("items", []):
             c = it.get("code", 0)
@@ -259,6 +287,9 @@ class NBuilder(object):
     def ordmap(self, name):
         from collections import OrderedDict
         d = OrderedDict()
+        if self.rnd is not None:       # random probe: mostly empty tables (and empty outside an episode: invariant I-excl)
+            empty = self.rnd.random() < 0.75 or not self.model.cache.get("excluding", True)
+            self.model.cache[name + ".len"] = 0.0 if empty else float(self.rnd.randrange(1, 3))
         for i in range(min(3, max(0, int(self._num(name + ".len", 0))))):
             d["M%d" % (900 + i)] = "M%d S%d" % (900 + i, i)
         return d
@@ -372,6 +403,8 @@ def replay(req):
         locs["self"] = self_obj
     f = NFrame(self_obj, locs, ghost)
     out = {"function": req["function"], "obligation": req["obligation"], "inputs": describe(locs), "ghost": describe(ghost)}
+    if b.rnd is not None:
+        out["assignment"] = {"values": dict(b.model.items()), "choices": list(b.made_choices)}
     pre_ok = True
     for cl in con.requires_:
         try:
